@@ -14,6 +14,9 @@ for sid in ids:
     d = os.path.join(V, "seeded", sid)
     meta = json.load(open(os.path.join(d, "meta.json")))
     prop = meta["property"]
+    if meta.get("neutralised_by") and "--all" not in sys.argv:
+        print("%-28s n/a    (no longer violates the property: %s)" % (sid, meta["neutralised_by"][:60]))
+        continue
     patch = os.path.join(d, "patch.diff")
     if inplace:
         repo = "/repo"
